@@ -156,6 +156,11 @@ def drive_case(case):
             _convert(b, "default")  # an earlier conversion in another format
             fmt = "test"
             composed = None
+        elif op == "backend_switch_back":  # after a conversion in ANOTHER format: convert_rule() without naming a format
+            b = backend_with(pipes[0], pipes[2], "default")(pipes[1])
+            _convert(b, "test")
+            fmt = None
+            composed = None
         elif op == "reuse_sum_again":
             first = pipes[0] + pipes[1]
             composed = pipes[0] + pipes[1]
@@ -210,7 +215,7 @@ def drive_case(case):
 
         compose_error = {"ok": False, "out": [], "exc": type(e).__name__, "sigma": isinstance(e, SigmaError)}
         composed = None
-    via_rule = op == "backend_switch"
+    via_rule = op in ("backend_switch", "backend_switch_back")
     # the composed object used directly, before a backend sums its parts once more
     state_after = _apply_state(composed) if composed is not None else []
     probes = _probes(case["ref"])
